@@ -178,6 +178,43 @@ pub fn run(name: &str) -> R {
             }
             Ok(format!("{} (no panic)", out.join("; ")))
         }
+        // F8 (C13): a write-back that fails must not lose the dirty marker: a later flush that returns Ok means the
+        // bytes are in the file
+        "c13_failed_write_back_is_retried" => {
+            for size in [100usize, 5000] {
+                // count the underlying writes of an unfaulted flush
+                let total = {
+                    let st = FStore::default();
+                    let mut c = CompoundFile::create_with_version(Version::V3, st.clone()).unwrap();
+                    let mut s = c.create_stream("/s").unwrap();
+                    s.write_all(&vec![0x5Au8; size]).unwrap();
+                    st.plan.borrow_mut().armed = true;
+                    s.flush().unwrap();
+                    let n = st.plan.borrow().writes;
+                    n
+                };
+                for k in 1..=total {
+                    let st = FStore::default();
+                    let mut c = CompoundFile::create_with_version(Version::V3, st.clone()).unwrap();
+                    let mut s = c.create_stream("/s").unwrap();
+                    s.write_all(&vec![0x5Au8; size]).unwrap();
+                    { let mut p = st.plan.borrow_mut(); p.armed = true; p.fail_writes = vec![k]; }
+                    let first = s.flush();
+                    st.plan.borrow_mut().armed = false;
+                    if first.is_ok() { continue; }
+                    let second = s.flush();
+                    drop(s);
+                    if second.is_ok() {
+                        match read_all(&mut c, "/s") {
+                            Ok(got) if got == vec![0x5Au8; size] => {}
+                            Ok(got) => return Some(Err(format!("{size} bytes written, underlying write #{k} of the flush failed (flush returned Err), the next flush returned Ok, but a fresh handle reads {} bytes", got.len()))),
+                            Err(e) => return Some(Err(format!("{size} bytes, fault at write #{k}: flush Ok after retry but reading back fails: {e}"))),
+                        }
+                    }
+                }
+            }
+            Ok("after every single write fault, a flush that returns Ok has the data in the file".into())
+        }
         // F9 (C15): a create / write 100 bytes / remove cycle must not grow the file from the second repetition on
         "c15_small_stream_cycle_does_not_grow" => {
             let mut out = Vec::new();
@@ -311,3 +348,23 @@ impl Write for Shared {
     fn flush(&mut self) -> std::io::Result<()> { Ok(()) }
 }
 impl Seek for Shared { fn seek(&mut self, p: SeekFrom) -> std::io::Result<u64> { self.0.borrow_mut().seek(p) } }
+
+/// backing store with an externally controlled fault plan
+#[derive(Default)]
+pub struct FaultPlan { pub armed: bool, pub writes: usize, pub fail_writes: Vec<usize>, pub reads: usize, pub fail_reads: Vec<usize> }
+#[derive(Clone, Default)]
+struct FStore { data: std::rc::Rc<std::cell::RefCell<Cursor<Vec<u8>>>>, plan: std::rc::Rc<std::cell::RefCell<FaultPlan>> }
+impl Read for FStore {
+    fn read(&mut self, b: &mut [u8]) -> std::io::Result<usize> {
+        { let mut p = self.plan.borrow_mut(); if p.armed { p.reads += 1; if p.fail_reads.contains(&p.reads) { return Err(std::io::Error::other("injected read fault")); } } }
+        self.data.borrow_mut().read(b)
+    }
+}
+impl Write for FStore {
+    fn write(&mut self, b: &[u8]) -> std::io::Result<usize> {
+        { let mut p = self.plan.borrow_mut(); if p.armed { p.writes += 1; if p.fail_writes.contains(&p.writes) { return Err(std::io::Error::other("injected write fault")); } } }
+        self.data.borrow_mut().write(b)
+    }
+    fn flush(&mut self) -> std::io::Result<()> { Ok(()) }
+}
+impl Seek for FStore { fn seek(&mut self, p: SeekFrom) -> std::io::Result<u64> { self.data.borrow_mut().seek(p) } }
